@@ -32,6 +32,24 @@ pub fn dispatch(fs: &[String]) -> String {
             esc(&outs.join("\u{1f}"))
         }
         "expr" => expr_op(a(1), a(2), a(3) == "1"),
+        "subexprs" => {
+            let (e, _w, _i, _p) = tc::verif_hooks::verif_parse_expr(a(1), false);
+            match e {
+                None => "none".to_string(),
+                Some(e) => esc(&e.sub_expressions().map(|x| crate::dump::expr(x, false)).collect::<Vec<_>>().join("\u{1f}")),
+            }
+        }
+        "convert" => {
+            let (e, _w, _i, _p) = tc::verif_hooks::verif_parse_expr(a(1), false);
+            match e {
+                None => "none".to_string(),
+                Some(mut e) => {
+                    let names: Vec<&str> = a(2).split(',').filter(|x| !x.is_empty()).collect();
+                    tc::verif_hooks::verif_convert_scopes(&mut e, &names);
+                    esc(&crate::dump::expr(&e, false))
+                }
+            }
+        }
         "group" => group(a(1)),
         _ => "bad-op".to_string(),
     }
